@@ -2501,6 +2501,13 @@ def check_C02(tier, seed):
     progs = []
     for i, t in enumerate(trees):
         progs.append(Program(i + 1, [("Init", [F.simple_rule(t)])], sigma=(97, 98, 99, 120), k=4))
+    # nested / nullable repetition (`('a'*)*`, `('a'? | 'b')+`, ...): every tree with <= 2 operators
+    # that can match the empty string, closed off by a character before or after it
+    from progs import cat as _cat, chr_ as _chr
+    nul = [t for t in fre_trees(2) if nullable(t, {}) and classes_ok(t, {}) and t["k"] != "str"]
+    for t in nul:
+        for re_ in (_cat(t, _chr(120)), _cat(_chr(120), t)):
+            progs.append(Program(len(progs) + 1, [("Init", [F.simple_rule(re_)])], sigma=(97, 98, 99, 120), k=4))
     # larger random ones: overlapping ranges, `_` mixed with ranges and literals, nested repetition
     big = F.random_general(seed, sizes(tier, 150, 1200), 200000, k=3, nsets=(1, 1, 2), nrules=(1, 2, 3),
                            depth=4, p_ctx=0.15, p_eoi=0.15, p_var=0.3, menu_sizes=(1,))
@@ -2606,7 +2613,8 @@ def check_C02(tier, seed):
         "behaviours_replayed": fr.runs,
         "rule": "all non-nullable regex trees with <= 2 operators over atoms 'a' 'b' \"ab\" ['a'-'b'] "
                 "['a' 'c'] _ and operators * + ? concatenation | (thorough: + a sample of 3-operator "
-                "trees) as one-rule definitions, plus seeded random larger definitions (depth 4, "
+                "trees) as one-rule definitions, every nullable tree with <= 2 operators closed off by a "
+                "character before / after it (nested and nullable repetition), plus seeded random larger definitions (depth 4, "
                 "variables, contexts, `$`, several rules and rule sets); each is expanded by the real "
                 "macro and the automata it built (before and after simplification, from every rule "
                 "set entry, and every context automaton) are compared with the Antimirov derivative "
